@@ -4,12 +4,14 @@ go 1.20
 
 replace github.com/pion/stun/v3 => /repo
 
-require github.com/pion/stun/v3 v3.0.0-00010101000000-000000000000
+require (
+	github.com/pion/stun/v3 v3.0.0-00010101000000-000000000000
+	github.com/pion/transport/v3 v3.0.7
+)
 
 require (
 	github.com/pion/dtls/v3 v3.0.6 // indirect
 	github.com/pion/logging v0.2.3 // indirect
-	github.com/pion/transport/v3 v3.0.7 // indirect
 	github.com/wlynxg/anet v0.0.3 // indirect
 	golang.org/x/crypto v0.32.0 // indirect
 	golang.org/x/sys v0.29.0 // indirect
